@@ -99,6 +99,19 @@ func (global *Ast) checkSrcPaths(stagecodePaths []string) error {
 }
 
 func (src *SourceFile) checkIncludes(fullPath string, inc *SourceLoc) error {
+	return src.checkIncludesFrom(fullPath, inc, make(map[*SourceFile]struct{}))
+}
+
+// checkIncludesFrom looks for fullPath among the files which transitively
+// include src.  visited is the set of files already searched: files may
+// already include each other (which was reported when that include was
+// processed), in which case following every includer again would never end.
+func (src *SourceFile) checkIncludesFrom(fullPath string, inc *SourceLoc,
+	visited map[*SourceFile]struct{}) error {
+	if _, ok := visited[src]; ok {
+		return nil
+	}
+	visited[src] = struct{}{}
 	var errs ErrorList
 	if fullPath == src.FullPath {
 		errs = append(errs, &wrapError{
@@ -107,7 +120,7 @@ func (src *SourceFile) checkIncludes(fullPath string, inc *SourceLoc) error {
 		})
 	} else {
 		for _, parent := range src.IncludedFrom {
-			if err := parent.File.checkIncludes(fullPath, inc); err != nil {
+			if err := parent.File.checkIncludesFrom(fullPath, inc, visited); err != nil {
 				errs = append(errs, err)
 			}
 		}
